@@ -59,27 +59,59 @@ Print Assumptions C03_success_only_by_set_result.
 
 (** Success implies every step succeeded.  If the transfer's status is
     success then: its (unique) final task [F] ran its main (so its done-check
-    answered "not done"); all dependencies of [F] are tasks of the transfer
-    that have ended; no task of the transfer was created after [F]; and every
-    other task of the transfer -- except the submission task and, when [F] is
-    an IO task, IO tasks that are not dependencies of [F] (see the report: the
-    plan guard of Sys.v does not order them) -- is past its main, ran it to
-    normal completion and was not skipped.  Dependencies of dependencies are
-    tasks of the transfer, hence covered. *)
+    answered "not done"), is not in the failed position, and once past its
+    main it returned normally (set_result is the last statement of a final
+    task's main); all dependencies of [F] are tasks of the transfer that have
+    ended; no task of the transfer was created after [F]; and every other
+    task of the transfer except the submission task is past its main, ran it
+    to normal completion and was not skipped -- for an IO final task and an IO
+    task that is not one of its dependencies this uses the single IO worker
+    ([w_io = 1], as in TransferManager: the IO executor has one thread; FIFO +
+    the plan fact that the earlier IO task is already enqueued when [F] is
+    submitted); for every other pair it holds for any number of workers.
+    Dependencies of dependencies are tasks of the transfer, hence covered. *)
 Theorem C03_success_implies_all_ok : forall w_sub w_req w_io q_sub q_req q_io up down s t co,
+  0 <= w_sub -> 0 <= w_req -> 0 <= w_io ->
   reachable (init w_sub w_req w_io q_sub q_req q_io up down) s ->
   find_coord t (coords s) = Some co -> c_status co = Success ->
   exists kf F, find_task kf (tasks s) = Some F /\ k_final F = true /\ k_t F = t /\
-    k_ran_main F = true /\ k_skipped F = false /\
+    k_ran_main F = true /\ k_skipped F = false /\ k_st F <> TFailed /\
+    (past_main (k_st F) = true -> k_main_ok F = true) /\
     (forall kf' F', find_task kf' (tasks s) = Some F' -> k_final F' = true -> k_t F' = t -> kf' = kf) /\
     (forall d, In d (k_deps F) -> exists x, find_task d (tasks s) = Some x /\ k_t x = t /\ k_st x = TEnded) /\
     (forall kx x, find_task kx (tasks s) = Some x -> k_t x = t -> kx <> kf ->
        kx < kf /\
        (k_kind x <> KSubmission ->
-        In kx (k_deps F) \/ ~ (k_stage x = SIO /\ k_stage F = SIO) ->
+        In kx (k_deps F) \/ ~ (k_stage x = SIO /\ k_stage F = SIO) \/ w_io = 1 ->
         past_main (k_st x) = true /\ k_main_ok x = true /\ k_skipped x = false /\ k_ran_main x = true)).
 Proof. exact success_implies_all_ok. Qed.
 Print Assumptions C03_success_implies_all_ok.
+
+(** With the single IO worker of the TransferManager: no exclusion at all. *)
+Corollary C03_success_implies_all_ok_single_io_worker :
+  forall w_sub w_req q_sub q_req q_io up down s t co,
+  0 <= w_sub -> 0 <= w_req ->
+  reachable (init w_sub w_req 1 q_sub q_req q_io up down) s ->
+  find_coord t (coords s) = Some co -> c_status co = Success ->
+  exists kf F, find_task kf (tasks s) = Some F /\ k_final F = true /\ k_t F = t /\
+    k_ran_main F = true /\ (past_main (k_st F) = true -> k_main_ok F = true) /\
+    (forall kx x, find_task kx (tasks s) = Some x -> k_t x = t -> kx <> kf -> k_kind x <> KSubmission ->
+       past_main (k_st x) = true /\ k_main_ok x = true /\ k_skipped x = false /\ k_ran_main x = true).
+Proof.
+  intros w_sub w_req q_sub q_req q_io up down s t co Ha Hb Hr Hc Hs.
+  destruct (success_implies_all_ok w_sub w_req 1 q_sub q_req q_io up down s t co Ha Hb ltac:(lia) Hr Hc Hs)
+    as (kf & F & H1 & H2 & H3 & H4 & _ & _ & H7 & _ & _ & H10).
+  exists kf, F. split; [exact H1|]. split; [exact H2|]. split; [exact H3|]. split; [exact H4|].
+  split; [exact H7|]. intros kx x Hx Ht Hne Hk.
+  destruct (H10 kx x Hx Ht Hne) as [_ G]. exact (G Hk (or_intror (or_intror eq_refl))).
+Qed.
+Print Assumptions C03_success_implies_all_ok_single_io_worker.
+
+(** A final task whose transfer is successful did not fail. *)
+Theorem C03_final_ok : forall w_sub w_req w_io q_sub q_req q_io up down s,
+  reachable (init w_sub w_req w_io q_sub q_req q_io up down) s -> final_ok_inv s.
+Proof. exact final_ok_inv_reachable. Qed.
+Print Assumptions C03_final_ok.
 
 (** The plan facts as invariants of every reachable state. *)
 Theorem C03_plan_invariants : forall w_sub w_req w_io q_sub q_req q_io up down s,
@@ -136,4 +168,35 @@ Proof.
   eexists. eexists. eexists. split; [vm_compute; reflexivity|].
   split; [vm_compute; reflexivity|]. split; [reflexivity|]. split; [reflexivity|].
   split; [vm_compute; reflexivity|]. split; reflexivity.
+Qed.
+
+(** a download to a file with the single IO worker: the GetObject task queues
+    an IO write, its done-callback phase submits the final IO task behind it;
+    the write has ended when the final task renames the file and sets the
+    result (the case of [C03_success_implies_all_ok] that uses w_io = 1) *)
+Definition C03_trace_download : list event :=
+  [ ENewTransfer (-1) 0;
+    ESubmit (-1) 0 0 SSub false [] KSubmission; EAcquire (-1) 0 SEM_SUB; EEnqueue (-1) 0;
+    ETaskStart 0; EDepsDone 0; EDoneCheck 0 false; EMainBegin 0;
+    EStatus 0 false true; EStatus 0 true true;
+    ESubmit 0 1 0 SReq false [] KGet; EAcquire 0 1 SEM_REQ; EEnqueue 0 1; EAssoc 0 1; EMainEnd 0 true;
+    ETaskStart 1; EDepsDone 1; EDoneCheck 1 false; EMainBegin 1;
+    ES3Begin 1 100 OpGet 0 0; ES3Effect 100 0; ES3End 100 true;
+    ESubmit 1 2 0 SIO false [] KIOWrite; EAcquire 1 2 SEM_IO; EEnqueue 1 2; EAssoc 1 2;
+    EMainEnd 1 true;
+    ESubmit 1 3 0 SIO true [] KIOFinal; EAcquire 1 3 SEM_IO; EEnqueue 1 3; EAssoc 1 3; ETaskEnd 1;
+    ETaskStart 2; EDepsDone 2; EDoneCheck 2 false; EMainBegin 2;
+    EFs 2 0 FOpen; EFs 2 0 FWrite; EMainEnd 2 true; ETaskEnd 2;
+    ETaskStart 3; EDepsDone 3; EDoneCheck 3 false; EMainBegin 3;
+    EFs 3 0 FClose; EFs 3 0 FRename; ESetResult 3; EMainEnd 3 true ].
+
+Example C03_example_download : exists s co F,
+  run (init 1 2 1 10 10 10 2 2) C03_trace_download = Some s /\
+  find_coord 0 (coords s) = Some co /\ c_status co = Success /\
+  find_task 3 (tasks s) = Some F /\ k_final F = true /\ k_stage F = SIO /\ k_deps F = [] /\
+  task_in s 2 TEnded = true /\ g_history (st_io s) = [2; 3].
+Proof.
+  eexists. eexists. eexists. split; [vm_compute; reflexivity|].
+  split; [vm_compute; reflexivity|]. split; [reflexivity|].
+  split; [vm_compute; reflexivity|]. repeat split; reflexivity.
 Qed.
